@@ -28,6 +28,9 @@ NAME = "castle_wall"
 STATUS = "partial: planar argument (model + differential only)"
 THEOREMS = []
 LEAN_CMD = "puz_castle_wall"
+# set to True once the line-board repair (IndexError for an inside / outside mark on a board with one row or column)
+# is committed in /repo: the Lean model then mirrors the repaired loop (`insideCs' true`)
+LINE_BOARD_FIX = True
 
 _SHAPES = [(1, 1), (1, 2), (1, 3), (3, 1), (1, 4), (2, 2), (2, 3), (3, 2), (2, 4), (4, 2), (3, 3), (3, 4), (4, 3), (2, 5), (5, 2), (4, 4), (3, 5), (5, 3),
            (2, 6), (6, 2)]
@@ -258,4 +261,4 @@ def _arrow_sx(a):
 def lean_line(problem):
     arrows = "(" + " ".join("(" + " ".join(_arrow_sx(a) for a in row) + ")" for row in problem["arrow"]) + ")"
     ins = "(" + " ".join("(" + " ".join({True: "T", False: "F", None: "N"}[v] for v in row) + ")" for row in problem["inside"]) + ")"
-    return "(puz_castle_wall %d %d %s %s)" % (problem["height"], problem["width"], arrows, ins)
+    return "(puz_castle_wall %d %d %s %s%s)" % (problem["height"], problem["width"], arrows, ins, " fixed" if LINE_BOARD_FIX else "")
